@@ -847,26 +847,49 @@ def m_ones_like(a, dtype=None):
 
 
 def _m_ufunc_at(op):
-    """ufunc.at(out, indices, values): unbuffered in-place scatter"""
+    """ufunc.at(out, indices, values): unbuffered in-place scatter; `indices` / `values` may be boolean selections
+    a[mask] (every row takes part under its mask bit)"""
     def model(out, indices, values=None):
         if not isinstance(out, SymArray):
             raise Unsupported("ufunc.at on a non-symbolic array")
-        idx = indices.e if isinstance(indices, SymArray) else list(indices)
-        vals = values.e if isinstance(values, SymArray) else ([values] * len(idx) if not isinstance(values, (list, tuple, numpy.ndarray)) else list(values))
+        if isinstance(indices, Masked):
+            idx, guards = list(indices.arr.e), [truth(m) for m in indices.mask.e]
+            if isinstance(values, Masked):
+                if not _same_mask(values.mask, indices.mask):
+                    raise Unsupported("ufunc.at with differently masked indices and values")
+                vals = list(values.arr.e)
+            elif isinstance(values, (SymArray, list, tuple, numpy.ndarray)):
+                raise Unsupported("ufunc.at with masked indices and an unmasked value array")
+            else:
+                vals = [values] * len(idx)
+        else:
+            if isinstance(values, Masked):
+                raise Unsupported("ufunc.at with masked values only")
+            idx = indices.e if isinstance(indices, SymArray) else list(indices)
+            guards = [z3.BoolVal(True)] * len(idx)
+            vals = values.e if isinstance(values, SymArray) else ([values] * len(idx) if not isinstance(values, (list, tuple, numpy.ndarray)) else list(values))
         n = len(out.e)
-        for k, v in zip(idx, vals):
+        for k, v, g in zip(idx, vals, guards):
             tk = R.num(k)[0] if is_sym(k) else z3.IntVal(int(k))
-            R.CTX.err(z3.Or(tk >= n, tk < -n), "IndexError")
+            R.CTX.err(z3.And(g, z3.Or(tk >= n, tk < -n)), "IndexError")
             new = []
             for pos, old in enumerate(out.e):
                 if op == "add":
                     upd = R.binop(ast.Add(), old, v)
                 else:
                     upd = R.py_max([old, v], op == "max")
-                new.append(merge(z3.Or(tk == pos, tk == pos - n), out._cast_elem(upd), old))
+                new.append(merge(z3.And(g, z3.Or(tk == pos, tk == pos - n)), out._cast_elem(upd), old))
             out.e = new
         return None
     return model
+
+
+def _same_mask(a, b):
+    if a is b:
+        return True
+    if len(a.e) != len(b.e):
+        return False
+    return all((x is y) or (is_sym(x) and is_sym(y) and x.t.eq(y.t)) or (not is_sym(x) and not is_sym(y) and bool(x) == bool(y)) for x, y in zip(a.e, b.e))
 
 
 def m_pad(a, pad_width, mode="constant", constant_values=0):
